@@ -415,7 +415,7 @@ type agg struct {
 	ntDigests    map[string]bool
 	pairs        map[uint64]bool
 	steps        int64
-	simNs        int64
+	simS         float64 // seconds: C18's day- and year-scale runs overflow an int64 of nanoseconds when summed
 	counters     map[string]int64
 	byFamily     map[string]int
 	byConfig     map[string]int
@@ -478,7 +478,7 @@ func (a *agg) add(prop string, o *RunOutput) {
 		a.pairs[p] = true
 	}
 	a.steps += o.Steps
-	a.simNs += o.SimTimeNs
+	a.simS += float64(o.SimTimeNs) / 1e9
 	a.frames += int64(o.Frames)
 	a.events += int64(o.Events)
 	for k, v := range o.Counters {
@@ -701,7 +701,7 @@ func cmdCheck(args []string) int {
 		fmt.Printf("note: %d runs also tripped %s (decided by that property's own check; first: %s)\n", n, k, a.noteSeed[k])
 	}
 	fmt.Printf("%s %s: %d runs, %d steps, %d distinct schedules, %.0f simulated s, %.1fs wall, %d violation kind(s), %d known finding(s)\n",
-		id, *tier, a.runs, a.steps, len(a.digests), float64(a.simNs)/1e9, wall, nViol, len(knownHit))
+		id, *tier, a.runs, a.steps, len(a.digests), a.simS, wall, nViol, len(knownHit))
 	for _, l := range vioLines {
 		fmt.Println(l)
 	}
@@ -1137,7 +1137,7 @@ func writeEvidence(id string, ps *propSpec, tier string, seed uint64, a *agg, b 
 		"samples":                   samples,
 		"exhaustive":                false,
 		"seeds_per_hour":            int64(perHour),
-		"sim_time_total_s":          float64(a.simNs) / 1e9,
+		"sim_time_total_s":          a.simS,
 		"steps_total":               a.steps,
 		"frames_total":              a.frames,
 		"history_events_total":      a.events,
